@@ -469,6 +469,19 @@ def c13_threaded_task(arg):
                         _row_vs_trace(n, k, row, t, errs, "threaded")
                         if "state_h" in st and k + 1 < K and not (n == sup and k + 1 > done) and st["state_h"][k + 1] != t["out_h"]:
                             errs.append(("threaded:state-before-next-step!=state-returned", (n, k, st["state_h"][k + 1], t["out_h"])))
+                        # the per-connection message records: every message the step really used (probe trace) is listed,
+                        # assigned to a step <= k, and nothing is assigned to a step that was not recorded
+                        for (iname, seqs, a_, b_, dh_, tags_) in t["inputs"]:
+                            ms = nr["inputs"].get(iname)
+                            if ms is None:
+                                continue
+                            where = {so: si for so, si in zip(ms["seq_out"], ms["seq_in"])}
+                            for sq in seqs:
+                                if sq >= 0 and (sq not in where or where[sq] > k):
+                                    errs.append(("threaded:message-used-by-step-missing-from-input-record", (n, k, iname, sq, where.get(sq))))
+                    for o_, ms in nr["inputs"].items():
+                        if ms["seq_in"] and K > 0 and max(ms["seq_in"]) > st["seq"][-1]:
+                            errs.append(("threaded:input-record-lists-message-of-unrecorded-step", (n, o_, max(ms["seq_in"]), st["seq"][-1])))
         seen = set()
         for sig, det in errs:
             if sig not in seen:
